@@ -2,24 +2,59 @@
 
 use crate::wire::*;
 use serde_json::{json, Value};
+#[cfg(feature = "cfg-alloc")]
 use std::cell::RefCell;
 use std::panic::{catch_unwind, AssertUnwindSafe};
+use std::sync::Arc;
 use tz::datetime::{DateTime, FoundDateTimeKind, UtcDateTime};
-use tz::timezone::{
-    AlternateTime, Julian0WithLeap, Julian1WithoutLeap, LeapSecond, LocalTimeType, MonthWeekDay, RuleDay, TimeZone, TimeZoneRef, TimeZoneSettings, Transition,
-    TransitionRule,
-};
+use tz::timezone::{AlternateTime, Julian0WithLeap, Julian1WithoutLeap, LeapSecond, LocalTimeType, MonthWeekDay, RuleDay, TimeZoneRef, Transition, TransitionRule};
+#[cfg(feature = "cfg-alloc")]
+use tz::timezone::{TimeZone, TimeZoneSettings};
 
 pub const BUF_LEN: usize = 8;
 
+/// The four lists of a zone, owned by the harness (so that the allocation-free API can be driven in every configuration).
+pub struct ZoneParts {
+    pub tr: Vec<Transition>,
+    pub ty: Vec<LocalTimeType>,
+    pub lp: Vec<LeapSecond>,
+    pub rule: Option<TransitionRule>,
+}
+
+#[derive(Clone)]
 pub struct State {
-    pub zone: Option<TimeZone>,
+    /// current zone of the session (None = UTC); shared by reference between threads in the C15 driver
+    pub parts: Option<Arc<ZoneParts>>,
+    #[cfg(feature = "cfg-alloc")]
+    pub owned: Option<Arc<TimeZone>>,
     pub buf: Vec<Option<FoundDateTimeKind>>,
 }
 
 impl State {
     pub fn new() -> Self {
-        State { zone: None, buf: vec![None; BUF_LEN] }
+        State {
+            parts: None,
+            #[cfg(feature = "cfg-alloc")]
+            owned: None,
+            buf: vec![None; BUF_LEN],
+        }
+    }
+
+    fn clear_zone(&mut self) {
+        self.parts = None;
+        #[cfg(feature = "cfg-alloc")]
+        {
+            self.owned = None;
+        }
+        self.buf = vec![None; BUF_LEN];
+    }
+
+    #[cfg(feature = "cfg-alloc")]
+    fn set_owned(&mut self, z: TimeZone) {
+        let r = z.as_ref();
+        self.parts = Some(Arc::new(ZoneParts { tr: r.transitions().to_vec(), ty: r.local_time_types().to_vec(), lp: r.leap_seconds().to_vec(), rule: *r.extra_rule() }));
+        self.owned = Some(Arc::new(z));
+        self.buf = vec![None; BUF_LEN];
     }
 }
 
@@ -216,11 +251,13 @@ fn fields(a: &Value) -> Fields {
 // ---------------------------------------------------------------------------------------------
 // virtual file system for `resolve` (thread-local because TimeZoneSettings takes a plain fn pointer)
 
+#[cfg(feature = "cfg-alloc")]
 thread_local! {
     static VFS: RefCell<Vec<(String, Option<Vec<u8>>)>> = const { RefCell::new(Vec::new()) };
     static READS: RefCell<Vec<String>> = const { RefCell::new(Vec::new()) };
 }
 
+#[cfg(feature = "cfg-alloc")]
 fn vfs_read(path: &str) -> Result<Vec<u8>, Box<dyn std::error::Error + Send + Sync + 'static>> {
     READS.with(|r| r.borrow_mut().push(path.to_string()));
     VFS.with(|v| {
@@ -236,6 +273,7 @@ fn vfs_read(path: &str) -> Result<Vec<u8>, Box<dyn std::error::Error + Send + Sy
     })
 }
 
+#[cfg(feature = "cfg-alloc")]
 fn crate_err(e: tz::Error) -> Value {
     match e {
         tz::Error::Io(_) => json!({ "err": "Io" }),
@@ -246,6 +284,7 @@ fn crate_err(e: tz::Error) -> Value {
 }
 
 /// Minimal TZif wrapper around a footer: one UTC type, no transitions. `ver` is b'2' or b'3'.
+#[cfg(feature = "cfg-alloc")]
 pub fn tzif_with_footer(ver: u8, footer: &[u8]) -> Vec<u8> {
     let mut out = Vec::new();
     for _ in 0..2 {
@@ -267,12 +306,15 @@ pub fn tzif_with_footer(ver: u8, footer: &[u8]) -> Vec<u8> {
 // ---------------------------------------------------------------------------------------------
 
 fn zone_ref<'a>(st: &'a State) -> TimeZoneRef<'a> {
-    match &st.zone {
-        Some(z) => z.as_ref(),
+    match &st.parts {
+        Some(p) => TimeZoneRef::new(&p.tr, &p.ty, &p.lp, &p.rule).expect("session zone was validated when it was set"),
         None => TimeZoneRef::utc(),
     }
 }
 
+const UNAVAILABLE: &str = "operation not available in this feature configuration";
+
+#[cfg(feature = "cfg-alloc")]
 fn find_json(a: &Value, z: TimeZoneRef<'_>) -> Value {
     let f = fields(a);
     match DateTime::find(f.y, f.mo, f.d, f.h, f.mi, f.s, f.ns, z) {
@@ -282,6 +324,20 @@ fn find_json(a: &Value, z: TimeZoneRef<'_>) -> Value {
             let latest = opt_dt(l.latest());
             let list: Vec<Value> = l.into_inner().iter().map(found_json).collect();
             ok(json!({ "list": list, "unique": unique, "earliest": earliest, "latest": latest }))
+        }
+        Err(e) => err(e),
+    }
+}
+
+/// Without an allocator tz-rs has no `DateTime::find`: the same observation is taken through `find_n` with a buffer that is always large enough.
+#[cfg(not(feature = "cfg-alloc"))]
+fn find_json(a: &Value, z: TimeZoneRef<'_>) -> Value {
+    let f = fields(a);
+    let mut scratch = [None; 64];
+    match DateTime::find_n(&mut scratch, f.y, f.mo, f.d, f.h, f.mi, f.s, f.ns, z) {
+        Ok(l) => {
+            let list: Vec<Value> = l.data().iter().flatten().map(found_json).collect();
+            ok(json!({ "list": list, "unique": opt_dt(l.unique()), "earliest": opt_dt(l.earliest()), "latest": opt_dt(l.latest()) }))
         }
         Err(e) => err(e),
     }
@@ -444,38 +500,47 @@ fn exec_inner(op: &str, a: &Value, st: &mut State) -> Value {
             let (tr, ty, lp, rule) = match mk_zone_parts(a) {
                 Ok(p) => p,
                 Err(e) => {
-                    st.zone = None;
+                    st.clear_zone();
                     return e;
                 }
             };
             // both constructors are always called so that "decide identically" is observable in every event
-            let r_ref = TimeZoneRef::new(&tr, &ty, &lp, &rule).map(|_| ());
-            let r_owned = TimeZone::new(tr.clone(), ty.clone(), lp.clone(), rule);
+            let r_ref = TimeZoneRef::new(&tr, &ty, &lp, &rule).map(|z| zone_json(&z));
             let kref = match &r_ref {
-                Ok(()) => "ok".to_string(),
+                Ok(_) => "ok".to_string(),
                 Err(e) => kind_of_debug(&format!("{e:?}")),
             };
+            #[cfg(feature = "cfg-alloc")]
+            let r_owned = TimeZone::new(tr.clone(), ty.clone(), lp.clone(), rule).map(|z| zone_json(&z.as_ref())).map_err(|e| kind_of_debug(&format!("{e:?}")));
+            #[cfg(not(feature = "cfg-alloc"))]
+            let r_owned = r_ref.map_err(|e| kind_of_debug(&format!("{e:?}")));
             match r_owned {
-                Ok(z) => {
-                    let same = zone_json(&z.as_ref());
-                    st.zone = Some(z);
+                Ok(echo) => {
+                    #[cfg(feature = "cfg-alloc")]
+                    {
+                        st.owned = TimeZone::new(tr.clone(), ty.clone(), lp.clone(), rule).ok().map(Arc::new);
+                    }
+                    if kref == "ok" {
+                        st.parts = Some(Arc::new(ZoneParts { tr, ty, lp, rule }));
+                    } else {
+                        st.parts = None;
+                    }
                     st.buf = vec![None; BUF_LEN];
-                    json!({ "ok": {"ref": kref, "echo": same} })
+                    json!({ "ok": {"ref": kref, "echo": echo} })
                 }
-                Err(e) => {
-                    st.zone = None;
-                    json!({ "err": kind_of_debug(&format!("{e:?}")), "ref": kref })
+                Err(k) => {
+                    st.clear_zone();
+                    json!({ "err": k, "ref": kref })
                 }
             }
         }
         "lookup" => {
             let u = w_to_i64(getv(a, "u"));
-            let z = zone_ref(st);
-            let r1 = z.find_local_time_type(u).map(lt_json);
-            match (&st.zone, gets(a, "via")) {
-                (Some(o), "owned") => o.find_local_time_type(u).map(lt_json).map(ok).unwrap_or_else(err),
-                _ => r1.map(ok).unwrap_or_else(err),
+            #[cfg(feature = "cfg-alloc")]
+            if let (Some(o), "owned") = (&st.owned, gets(a, "via")) {
+                return o.find_local_time_type(u).map(lt_json).map(ok).unwrap_or_else(err);
             }
+            zone_ref(st).find_local_time_type(u).map(lt_json).map(ok).unwrap_or_else(err)
         }
         // ---- C05 / C06 / C17 ----
         "find" => find_json(a, zone_ref(st)),
@@ -483,8 +548,9 @@ fn exec_inner(op: &str, a: &Value, st: &mut State) -> Value {
             let f = fields(a);
             let n = geti(a, "n") as usize;
             let full = find_json(a, zone_ref(st));
-            let z = match &st.zone {
-                Some(z) => z.as_ref(),
+            let parts = st.parts.clone();
+            let z = match &parts {
+                Some(p) => TimeZoneRef::new(&p.tr, &p.ty, &p.lp, &p.rule).expect("validated"),
                 None => TimeZoneRef::utc(),
             };
             let buf = &mut st.buf;
@@ -523,6 +589,7 @@ fn exec_inner(op: &str, a: &Value, st: &mut State) -> Value {
             }
         }
         // ---- C09 ----
+        #[cfg(feature = "cfg-alloc")]
         "tzstring" => {
             let s = to_bytes(getv(a, "s"));
             match gets(a, "via") {
@@ -550,22 +617,23 @@ fn exec_inner(op: &str, a: &Value, st: &mut State) -> Value {
             }
         }
         // ---- C08 ----
+        #[cfg(feature = "cfg-alloc")]
         "tzif" => {
             let b = to_bytes(getv(a, "bytes"));
             match TimeZone::from_tz_data(&b) {
                 Ok(z) => {
                     let j = zone_json(&z.as_ref());
-                    st.zone = Some(z);
-                    st.buf = vec![None; BUF_LEN];
+                    st.set_owned(z);
                     ok(j)
                 }
                 Err(e) => {
-                    st.zone = None;
+                    st.clear_zone();
                     err(e)
                 }
             }
         }
         // ---- C20 ----
+        #[cfg(feature = "cfg-alloc")]
         "resolve" => {
             let s = String::from_utf8(to_bytes(getv(a, "s"))).expect("resolve: utf8 TZ value");
             let dirs: Vec<String> = getv(a, "dirs").as_array().unwrap().iter().map(|d| String::from_utf8(to_bytes(d)).unwrap()).collect();
@@ -587,7 +655,9 @@ fn exec_inner(op: &str, a: &Value, st: &mut State) -> Value {
             match res {
                 Ok(z) => {
                     let j = zone_json(&z.as_ref());
-                    st.zone = Some(z);
+                    let keep = st.buf.clone();
+                    st.set_owned(z);
+                    st.buf = keep;
                     json!({ "ok": {"zone": j}, "reads": reads })
                 }
                 Err(e) => {
@@ -597,6 +667,23 @@ fn exec_inner(op: &str, a: &Value, st: &mut State) -> Value {
                 }
             }
         }
+        // ---- C15: the two entry points that go through the process environment / default settings ----
+        #[cfg(feature = "cfg-std")]
+        "posixtz" => {
+            let s = String::from_utf8(to_bytes(getv(a, "s"))).expect("posixtz: utf8");
+            match TimeZone::from_posix_tz(&s) {
+                Ok(z) => ok(zone_json(&z.as_ref())),
+                Err(e) => crate_err(e),
+            }
+        }
+        #[cfg(feature = "cfg-std")]
+        "local" => match TimeZone::local() {
+            Ok(z) => ok(zone_json(&z.as_ref())),
+            Err(e) => crate_err(e),
+        },
+        "footprint" => ok(json!(1)),
+        #[allow(unreachable_patterns)]
+        "tzstring" | "tzif" | "resolve" | "posixtz" | "local" => json!({ "arg": UNAVAILABLE }),
         // observations of the reference implementations (recorded by lib/refs.py) are passed through unchanged:
         // the trace specification judges them against the same definitions as tz-rs (C10)
         "ref" => ok(getv(a, "obs").clone()),
